@@ -1,6 +1,47 @@
-//! one module per property; each exports `dispatch(op, args) -> Option<String>`
+//! one module per property; each exports `dispatch(op, args) -> Option<String>`; routed by op-name prefix
+pub mod c01;
+pub mod c02;
+pub mod c03;
 pub mod c04;
+pub mod c05;
+pub mod c06;
+pub mod c07;
+pub mod c08;
+pub mod c09;
+pub mod c10;
+pub mod c11;
+pub mod c12;
+pub mod c13;
+pub mod c14;
+pub mod c15;
+pub mod c16;
+pub mod c17;
+pub mod c18;
+pub mod c19;
+pub mod c20;
 
 pub fn dispatch(op: &str, args: &[&str]) -> Option<String> {
-    c04::dispatch(op, args)
+    match op.split('.').next().unwrap_or("") {
+        "c01" => c01::dispatch(op, args),
+        "c02" => c02::dispatch(op, args),
+        "c03" => c03::dispatch(op, args),
+        "c04" => c04::dispatch(op, args),
+        "c05" => c05::dispatch(op, args),
+        "c06" => c06::dispatch(op, args),
+        "c07" => c07::dispatch(op, args),
+        "c08" => c08::dispatch(op, args),
+        "c09" => c09::dispatch(op, args),
+        "c10" => c10::dispatch(op, args),
+        "c11" => c11::dispatch(op, args),
+        "c12" => c12::dispatch(op, args),
+        "c13" => c13::dispatch(op, args),
+        "c14" => c14::dispatch(op, args),
+        "c15" => c15::dispatch(op, args),
+        "c16" => c16::dispatch(op, args),
+        "c17" => c17::dispatch(op, args),
+        "c18" => c18::dispatch(op, args),
+        "c19" => c19::dispatch(op, args),
+        "c20" => c20::dispatch(op, args),
+        _ => None,
+    }
 }
